@@ -157,7 +157,7 @@ def live_scenario(run, e4, sc):
             mech = "client-request-lost-at-recycle/%s" % wc
             if wc == "gthread" and zero and set(kinds) <= {"empty", "reset"} and m:
                 mech = "gthread-drops-accepted-connections-at-recycle"
-            if wc == "eventlet" and zero and set(kinds) <= {"empty", "reset"} and m and conc > 1:
+            if wc == "eventlet" and zero and set(kinds) <= {"empty", "reset"} and m:
                 mech = "eventlet-drops-accepted-connections-at-recycle"
             v.append((mech, "%d of %d requests failed (%s) with max_requests=%d jitter=%d, %d concurrent clients on %s" % (
                 len(bad), len(log), kinds, m, j, conc, wc)))
